@@ -37,9 +37,8 @@ func scriptClassSwitch(c *Ctx, name string) (*FuncInfo, *strSwitch) {
 	if fn == nil {
 		return nil, nil
 	}
-	info := fn.Info()
 	var best *strSwitch
-	for _, ss := range stringSwitches(fn, func(e ast.Expr) bool { return isCommandCall(info, e) }) {
+	for _, ss := range stringSwitches(fn, func(e ast.Expr) bool { return c.isCommandTag(fn, e) }) {
 		if best == nil || len(ss.Clauses) > len(best.Clauses) {
 			best = ss
 		}
@@ -208,8 +207,7 @@ func ruleWriteGates(c *Ctx) {
 	}
 	// and every script-dispatchable mutating handler is in the script write list (commandInScript vs class lists)
 	if cis := c.Func("internal/server", "Server", "commandInScript"); cis != nil {
-		info := cis.Info()
-		for _, ss := range stringSwitches(cis, func(e ast.Expr) bool { return isCommandCall(info, e) }) {
+		for _, ss := range stringSwitches(cis, func(e ast.Expr) bool { return c.isCommandTag(cis, e) }) {
 			for _, cl := range ss.Clauses {
 				if cl.IsDefault {
 					continue
